@@ -237,15 +237,18 @@ func quietFP() (string, bool) {
 // has read its observation, that nothing has moved in between (an observation read while goroutines were still moving is
 // not an observation of a quiescent state; seen once in some hundred runs of C14K1 on an overloaded machine).
 func quiesceFP(gap, deadline time.Duration) (string, bool) {
-	// three identical all-blocked samples in a row (two used to be enough; see above)
-	end := time.Now().Add(deadline)
+	// three identical all-blocked samples in a row (two used to be enough; see above); on a machine so loaded that three in a
+	// row do not occur within the first 60 % of the deadline, two in a row are accepted for the rest of it (what it always was)
+	start := time.Now()
+	end := start.Add(deadline)
+	relax := start.Add(deadline * 6 / 10)
 	prev, same := "\x00", 0
 	for time.Now().Before(end) {
 		fp, ok := quietFP()
 		switch {
 		case ok && fp == prev:
 			same++
-			if same >= 2 {
+			if same >= 2 || time.Now().After(relax) {
 				return fp, true
 			}
 		case ok:
@@ -254,6 +257,17 @@ func quiesceFP(gap, deadline time.Duration) (string, bool) {
 			prev, same = "\x00", 0
 		}
 		time.Sleep(gap)
+	}
+	// for the log of the run: what was not blocked in the last sample
+	if st, _ := goroutineStates(); true {
+		var nb []string
+		for id, x := range st {
+			if !blockedState(x) {
+				nb = append(nb, id+"="+x)
+			}
+		}
+		sort.Strings(nb)
+		fmt.Fprintf(os.Stderr, "quiesce: no quiescence within %v; not blocked in the last sample: %v (of %d goroutines of the package)\n", deadline, nb, len(st))
 	}
 	return "", false
 }
